@@ -165,3 +165,20 @@ Proof.
   rewrite (node_of_spec_tree L' Hnd Hid1), N. split; [reflexivity|].
   exact (tree_depth1_partial h n hfuel Hh F H1 H2).
 Qed.
+
+(* ------------------------------------------------------------------ the hypotheses are satisfiable *)
+(* /g, /d (uint8 [3]), /d again (refused by library and specification: duplicate), /g again (refused) *)
+Definition d1_ex : list top :=
+  [TGroup [47; 103]; TDataset [47; 100] 4 [3] [1; 2; 3]; TDataset [47; 100] 4 [3] [1; 2; 3]; TGroup [47; 103]].
+Lemma d1_ex_ok :
+  forallb d1_op d1_ex = true /\ bounded t_init d1_ex /\ 2197 <= blen (t_file (fst (tree_run d1_ex))) /\
+  blen (t_file (fst (tree_run d1_ex))) + 4000 < FLAT_LIM /\
+  tree_oks d1_ex = [true; true; false; false] /\
+  map NS.is_ok (snd (NS.run (NS.spec_step NS.go_cfg) NS.s_empty (map ns_op d1_ex))) = [true; true; false; false] /\
+  NS.spec_tree (fst (NS.run (NS.spec_step NS.go_cfg) NS.s_empty (map ns_op d1_ex)))
+    = Some (NS.TNode 0 NS.KGroup [([103], NS.TNode 1 NS.KGroup []); ([100], NS.TNode 2 NS.KData [])]).
+Proof.
+  split; [vm_compute; reflexivity|]. split.
+  { cbn [bounded d1_ex]. repeat split; vm_compute; reflexivity. }
+  vm_compute. repeat split; try reflexivity; discriminate.
+Qed.
